@@ -11,6 +11,14 @@ sys.path.insert(0, HERE)
 CHECKS = {}
 
 
+def _level_text(pid, base):
+    """design-time summary + the clause list the checker itself prints into the evidence (kept in one place: the module)"""
+    import importlib
+
+    mod = importlib.import_module("synlint.props.%s" % pid.lower())
+    return base + " || Clauses decided by the check as built: " + mod.EXPLANATION
+
+
 def add(pid, technique, text, note, ref):
     CHECKS[pid] = dict(technique=technique, text=text, note=note, ref=ref)
 
@@ -214,7 +222,7 @@ def main():
                 "replay_cmd_template": "./check %s --replay {path}" % pid,
                 "engine": "synlint",
                 "technique": "static analysis: " + c["technique"],
-                "level_claimed": {"category": "other", "text": c["text"], "design_ref": c["ref"]},
+                "level_claimed": {"category": "other", "text": _level_text(pid, c["text"]), "design_ref": c["ref"] + "; rules as built: DESIGN.md 7.4, 7.4b"},
                 "level_note": c["note"],
             }
         )
